@@ -96,6 +96,13 @@ def run_config(cfg, res):
   r = gen.rng(cfg['seed'], 'C12', cfg['name'])
   mt = [1000]
 
+  from twisted.internet.task import Clock
+  import carbon.service as service
+  poll = Clock()
+  WhiteList.read_task.clock = poll        # the lists' 10-second pollers run on a virtual clock
+  BlackList.read_task.clock = poll
+  wired = [False]
+
   def write_list(path, lines, lst):
     if lines is None:
       if os.path.exists(path):
@@ -105,10 +112,16 @@ def run_config(cfg, res):
         f.write('\n'.join(lines) + ('\n' if lines else ''))
       mt[0] += 10
       os.utime(path, (mt[0], mt[0]))
-    if lst.list_file is None:
-      lst.read_from(path)       # what createBaseService does when USE_WHITELIST is on
+
+  def sync_lists():
+    if not wired[0]:
+      # the daemon's own start-up wiring (USE_WHITELIST is on), with whatever list files exist at that moment
+      wired[0] = True
+      service.createBaseService(None, settings)
+      res.count('daemon_wiring_calls')
     else:
-      lst.read_list()           # what the LoopingCall does every 10 s
+      poll.advance(10)          # the pollers' next tick picks up what changed on disk
+      res.count('list_poll_ticks')
 
   ncases = 400 if cfg['tier'] == 'quick' else 6000
   for case in range(ncases):
@@ -116,6 +129,7 @@ def run_config(cfg, res):
     bl = gen_list(r) if r.random() < 0.6 else ([] if r.random() < 0.5 else None)
     write_list(wpath, wl, WhiteList)
     write_list(bpath, bl, BlackList)
+    sync_lists()
     white = compile_list(wl or [])
     black = compile_list(bl or [])
     batch = []
